@@ -1373,17 +1373,27 @@ func unsharedObject(v ssa.Value) bool {
 // a goroutine reading it until the producer closes it.
 func (c *Ctx) abandonedProducersAreDrained() {
 	P, R := c.P, c.R
-	R.Explain("R19.10", "no blocked producer is left behind: in Session.serve the loop that forwards a command handler's responses (range over the channel returned by handleOther) may be left before the channel is closed only after starting a goroutine that keeps receiving from that channel until it is closed - a plain range over the channel, with no select, no context and without handing the channel to other code.  Handlers send with blocking sends; if the drain can stop early the handler blocks for ever, handleWG.Wait never returns, the state is never released and RemoveUser/Close hang.")
-	f := c.fn("R19.10", "internal/session.(*Session).serve")
-	if f == nil {
+	R.Explain("R19.10", "no blocked producer is left behind: in the session's command loop (Session.serve or a method it delegates to) the loop that forwards a command handler's responses (range over the channel returned by handleOther) may be left before the channel is closed only after starting a goroutine that keeps receiving from that channel until it is closed - a plain range over the channel, with no select, no context and without handing the channel to other code.  Handlers send with blocking sends; if the drain can stop early the handler blocks for ever, handleWG.Wait never returns, the state is never released and RemoveUser/Close hang.")
+	if c.fn("R19.10", "internal/session.(*Session).handleOther") == nil {
 		return
 	}
 	n := 0
-	for _, cs := range engine.Calls(f) {
-		sc := cs.Common().StaticCallee()
-		if sc == nil || engine.ShortName(sc) != "handleOther" || cs.Instr.Parent() != f {
-			continue
+	type site struct {
+		f  *ssa.Function
+		cs engine.CallSite
+	}
+	var sites []site
+	for _, g := range c.funcsInPkg("internal/session") {
+		for _, cs := range engine.Calls(g) {
+			sc := cs.Common().StaticCallee()
+			if sc == nil || engine.ShortName(sc) != "handleOther" || cs.Instr.Parent() != g {
+				continue
+			}
+			sites = append(sites, site{g, cs})
 		}
+	}
+	for _, st := range sites {
+		f, cs := st.f, st.cs
 		ch, ok := cs.Instr.(*ssa.Call)
 		if !ok {
 			continue
